@@ -29,7 +29,7 @@ def observe(cfg, items):
     except Exception as e:
         rec.calls.append(("exception", type(e).__name__))
     ph = cfg.ge_polyhedron
-    return {"structure": full_dump(cfg), "default_prios": sorted(cfg.default_prios.items()),
+    return {"structure": full_dump(cfg), "default_prios": sorted(cfg.default_prios.items()), "plain_matrix": np.asarray(cfg.to_ge_polyhedron(True)).tolist(),
             "matrix": np.asarray(ph).tolist(), "variables": [(v.id, v.bounds.as_tuple()) for v in ph.variables],
             "dpv": [int(x) for x in ph.default_prio_vector], "select_args": rec.calls}
 
@@ -40,9 +40,23 @@ def safe_observe(cfg, items):
         return {"structure": full_dump(cfg), "raised": type(e).__name__}
 
 def solver_got_other(o):
-    """select() hands the solver the configurator's own asserted polyhedron"""
+    """select() hands the solver the configurator's own asserted polyhedron, and ge_polyhedron is the model's polyhedron
+    (to_ge_polyhedron with the top node asserted) with the default priorities attached"""
     calls = o.get("select_args") or []
+    if "matrix" in o and o["matrix"] != o.get("plain_matrix"):
+        o["select_args"] = [(o["plain_matrix"], [])]      # reported through the same message: what the configurator hands out is not its model's polyhedron
+        return True
     return bool(calls) and calls[0][0] != "exception" and calls[0][0] != o.get("matrix")
+
+def look_alike(rule):
+    """the same rule with another limit / another leaf range that is easily taken for the first (same id, operands and class)"""
+    r = json.loads(json.dumps(ast_json(rule)))
+    if r["k"] == "AtMost" and r.get("v") in (1, 2):
+        r["v"] = 3 - r["v"]; return r
+    if r["k"] == "AtLeast" and r.get("ch") and r["ch"][0]["k"] == "var":
+        lo, hi = r["ch"][0]["b"]
+        r["ch"][0]["b"] = [lo + 1, hi - 1] if hi - lo >= 2 else [lo - 1, hi + 1]; return r
+    return None
 
 def oracle_case(res, base_ast, adds, items):
     bad = _oracle_case(res, base_ast, adds, items)
@@ -79,6 +93,25 @@ def _oracle_case(res, base_ast, adds, items):
     for k in snapshot:
         if now.get(k) != snapshot[k]:
             return f"the original configurator changed in {k} after the extended one was built and observed: {str(snapshot[k])[:300]} -> {str(now.get(k))[:300]}"
+    # two ALTERNATIVE extensions of the one original in one process: the second, with a look-alike of the first added rule,
+    # is its own configurator
+    alt_rule = look_alike(adds[0]) if adds else None
+    if alt_rule is not None:
+        try:
+            alt = cfg.add(build(alt_rule))
+        except Exception:
+            alt = None
+        if alt is not None:
+            res.evaluations += 1
+            first = safe_observe(cfg.add(build(adds[0])), items)
+            oa = safe_observe(alt, items)
+            od = safe_observe(build({"k": "Stingy", "ch": base_ast["ch"] + [alt_rule], "id": cfg.id}), items)
+            for who, o in (("the first of two alternative extensions", first), ("the second of two alternative extensions", oa), ("its direct construction", od)):
+                if solver_got_other(o):
+                    return f"{who} (rules {json.dumps(ast_json(adds[0]))[:150]} / {json.dumps(alt_rule)[:150]}) hands out a polyhedron that is not its model's: {str(o['select_args'][0][0])[:200]} vs {str(o['matrix'])[:200]}"
+            for k in oa:
+                if oa[k] != od.get(k):
+                    return f"the second of two alternative extensions differs from its direct construction in {k}: {str(oa[k])[:300]} vs {str(od.get(k))[:300]}"
     # and extending the original again still equals direct construction
     if adds:
         again, direct1 = cfg.add(build(adds[0])), build({"k": "Stingy", "ch": base_ast["ch"] + adds[:1], "id": cfg.id})
@@ -115,6 +148,14 @@ def run(res, tier, seed):
                 adds = [{"k": "var", "id": a0["id"], "b": list(a0.get("b", [0, 1]))}] + (adds[:1] if rng.random() < 0.3 else [])
                 res.count("add_requires_existing_item")
             nadd = len(adds)
+        if rng.random() < 0.15:
+            # a limit rule (at most 1 / at most 2 of a group) or a quantity rule over an integer item is added: the kind of rule of
+            # which an application tries alternatives on one original
+            if rng.random() < 0.6:
+                adds = [{"k": "AtMost", "v": rng.choice([1, 2]), "ch": g.leaves(3, 3), "id": "Lim"}] + adds[:1]
+            else:
+                lo = rng.randint(0, 1); adds = [{"k": "AtLeast", "v": 1, "s": None, "ch": [{"k": "var", "id": "qty", "b": [lo, lo + rng.randint(2, 3)]}], "id": "Qty"}] + adds[:1]
+            nadd = len(adds); res.count("limit_rule_with_look_alike")
         if rng.random() < 0.08:
             # a configurator that holds exactly ONE rule, an unnamed group (a single package): what add() starts from must be
             # what direct construction builds from the same rule
